@@ -27,7 +27,8 @@ SignVerdicts(c, ev) ==
       okset == IF ev.x[1] = 0 \/ small THEN {v, Neg(v)} ELSE IF ev.x[1] > 0 THEN {v} ELSE {Neg(v)}
       iscode == Norm(ev.y) \in {v, Neg(v)}
       ste == {Ste32(ev.x, w) : w \in okset}
-  IN (IF ~iscode THEN (IF Norm(ev.y) \in ste THEN <<"code_lost_in_float32_ste">> ELSE <<"out_of_code_range">>)
+  \* (an output that is neither of the two codes is a fortiori not the nearest code: both C01 and C02 see it)
+  IN (IF ~iscode THEN (IF Norm(ev.y) \in ste THEN <<"code_lost_in_float32_ste">> ELSE <<"out_of_code_range", "not_nearest">>)
       ELSE IF Norm(ev.y) \notin okset THEN <<"not_nearest">> ELSE <<>>)
      \o (IF Less(ev.y, ev.mn) \/ Less(ev.mx, ev.y) THEN <<"outside_minmax">> ELSE <<>>)
      \o (IF iscode /\ ~Eq(ev.yy, ev.y) THEN <<"not_idempotent">> ELSE <<>>)
